@@ -208,6 +208,14 @@ def target_names(t, out):
         target_names(t.value, out)
 
 
+def is_simple(x):
+    """names, constants and plain attribute chains on names (self.ctx, cls.context): evaluation cannot run code
+    (properties of the context other than prec/dps are not modelled) and is taken not to raise"""
+    while isinstance(x, ast.Attribute):
+        x = x.value
+    return isinstance(x, (ast.Name, ast.Constant))
+
+
 def is_prec_attr(n, attrs=("prec",)):
     return isinstance(n, ast.Attribute) and n.attr in attrs
 
@@ -382,7 +390,14 @@ class Program:
 
     # ---- which functions get a term
     def _compute_table(self):
-        table = set(f for f in self.funcs if f.touches)
+        # @defun_wrapped functions and functions wrapped by a decorator of the sources always get a term: what a
+        # caller reaches through their name is a wrapper that does touch the precision
+        srcdecos = set()
+        for m in self.modules:
+            for n, fs in m.toplevel.items():
+                if len(fs) == 1 and self._returned_nested(fs[0]) is not None:
+                    srcdecos.add(n)
+        table = set(f for f in self.funcs if f.touches or f.wrapped or (set(f.deco_names) & srcdecos))
         names = lambda S: set(g.name for g in S if not g.is_lambda)
         changed = True
         while changed:
@@ -464,6 +479,18 @@ class Translator:
         self.pending.append(e)
         return e
 
+    def meet_entry(self, keys):
+        """a synthetic function whose body is the nondeterministic choice between the candidates"""
+        key = "meet:" + "|".join(keys)
+        if key not in self.entries:
+            e = Entry(key, self.entries[keys[0]].func, {}, "meet")
+            e.depth = 0
+            e.cmd = choice_all([("CallFn", k) for k in keys])
+            e.candidates = list(keys)
+            self.entries[key] = e
+            self.order.append(e)
+        return key
+
     def run(self):
         P = self.P
         # resolve decorators that wrap (c_memo style, defun_wrapped)
@@ -500,6 +527,18 @@ class Translator:
             e = self.pending.pop()
             FT = FuncTranslator(self, e)
             e.cmd = FT.translate()
+        # the with-form of the precision managers around an arbitrary block, as its own obligation
+        if P.pm_enter is not None and P.pm_exit is not None and P.pm_factories_ok:
+            host = Entry("synthetic:with-manager", P.pm_enter, {}, "synthetic")
+            host.depth = 0
+            ft = FuncTranslator(self, host)
+            block = seq(CALLEXT, choice(RETURN, SKIP), CALLEXT)
+            host.cmd = seq(ft.inline_method(P.pm_enter, "$w", False), ("TryFinally", block, ft.inline_method(P.pm_exit, "$w", True)))
+            self.entries[host.key] = host
+            self.order.append(host)
+            while self.pending:
+                e = self.pending.pop()
+                e.cmd = FuncTranslator(self, e).translate()
         for i, e in enumerate(self.order):
             e.id = i + 1
         return self
@@ -544,6 +583,7 @@ class FuncTranslator:
     def _prepass(self):
         f = self.f
         self.alias = {}          # local name -> set of closure Func (assigned only from lambdas / nested def names)
+        self.attr_alias = {}     # local name -> attribute name (assigned only from <name>.attr)
         self.fresh_ctx = set()   # locals created by <x>.__class__()
         self.gen_taint = {}      # local name -> set of generator entry keys
         assigns = {}
@@ -589,6 +629,9 @@ class FuncTranslator:
                     ok = False
             if ok and cl:
                 self.alias[name] = cl
+            # x = ctx.convert  (bound method kept in a local): calls through x are calls of that attribute
+            if vals and all(isinstance(v, ast.Attribute) and is_simple(v) for v in vals) and len(set(v.attr for v in vals)) == 1:
+                self.attr_alias[name] = vals[0].attr
             if len(vals) == 1 and isinstance(vals[0], ast.Call) and isinstance(vals[0].func, ast.Attribute) \
                and vals[0].func.attr == "__class__" and not vals[0].args:
                 self.fresh_ctx.add(name)
@@ -657,6 +700,17 @@ class FuncTranslator:
                     if not gs:
                         return "ext", None
                     return "fn", [self.T.entry_for(g).key for g in gs]
+                if first and n in self.attr_alias and n not in f.allparams:
+                    a = self.attr_alias[n]
+                    if a in PM_NAMES:
+                        return "pm", None
+                    gs = self.P.attr_cands.get(a, [])
+                    if gs:
+                        out = []
+                        for g in gs:
+                            out += self.T.call_targets(g, via_attr=True)
+                        return "fn", out
+                    return "ext", None
                 if n in f.allparams or n in f.assigned:
                     return "ext", None      # callable of unknown origin (user callback)
                 f = f.parent
@@ -713,7 +767,7 @@ class FuncTranslator:
             return SKIP
         evs = []
         self._ev(x, evs)
-        if not evs and isinstance(x, (ast.Name, ast.Constant)):
+        if not evs and is_simple(x):
             return SKIP
         out = [CALLEXT]
         for c in evs:
@@ -819,11 +873,12 @@ class FuncTranslator:
             if not (isinstance(nm, ast.Constant) and isinstance(nm.value, str) and nm.value not in WRITE_ATTRS):
                 evs.append(self.opaque("setattr"))
             return
-        if isinstance(fn, ast.Name) and fn.id in ("exec", "eval"):
+        if isinstance(fn, ast.Name) and fn.id == "exec":
             for a in x.args:
                 self._ev(a, evs)
-            evs.append(self.opaque("eval"))
+            evs.append(self.opaque("exec"))
             return
+        # eval(<user supplied expression>) is a user callback: CallExt like any other unknown callable
         if isinstance(fn, ast.Attribute) and fn.attr in ("__setattr__", "__delattr__", "__dict__"):
             evs.append(self.opaque("setattr"))
         # callee expression
@@ -895,7 +950,11 @@ class FuncTranslator:
                 t = se.key
             self.T.stats["callfn"] += 1
             alts.append(seq(*(pre + [("CallFn", t)])))
-        evs.append(choice_all(alts))
+        alts = list(dict.fromkeys(alts))
+        if len(alts) > 1 and all(a[0] == "CallFn" for a in alts):
+            evs.append(("CallFn", self.T.meet_entry(tuple(a[1] for a in alts))))
+        else:
+            evs.append(choice_all(alts))
 
     def needs_spec(self, key):
         """closures that write the precision themselves are worth specialising the callee for"""
@@ -1156,7 +1215,7 @@ class InlineTranslator(FuncTranslator):
         self.tag = tag
         self.tmp = 0
         self.with_count = 1000
-        self.alias = {}; self.fresh_ctx = set(); self.gen_taint = {}; self.assigns = {}
+        self.alias = {}; self.fresh_ctx = set(); self.gen_taint = {}; self.assigns = {}; self.attr_alias = {}
 
     def var(self, name):
         return self.host.var(self.tag + ":" + name)
@@ -1238,12 +1297,14 @@ def emit(T, outdir, shard_size=400):
     with open(path, "w") as f:
         f.write("\n".join(lines) + "\n")
     side = {"entries": [{"id": e.id, "key": e.key, "kind": e.kind, "file": e.func.mod.rel, "lineno": e.func.lineno,
+                         "firstlineno": min([e.func.lineno] + [d.lineno for d in e.func.decorators]),
                          "qual": e.func.qual, "name": e.func.name, "flags": sorted(e.flags),
                          "is_gen": e.func.is_gen, "writes": e.func.writes, "size": cmd_size(e.cmd),
                          "public_hint": e.public_hint, "returned_closures": e.returned_closures,
                          "bind": {k: list(v) for k, v in e.bind.items()}}
                         for e in T.order],
             "stats": T.stats, "notes": T.P.notes, "fp_const": T.P.fp_const, "pm_factories_ok": T.P.pm_factories_ok,
+            "pm_call_g": (T.P.pm_call_g.key if T.P.pm_call_g is not None else None),
             "sha": sources_sha(T.P), "nfuncs_scanned": len(T.P.funcs), "ntable": len(T.P.table)}
     with open(os.path.join(outdir, "terms.json"), "w") as f:
         json.dump(side, f, indent=0)
@@ -1261,3 +1322,44 @@ if __name__ == "__main__":
     T = translate()
     info = emit(T, out)
     print("entries", info["n"], "stats", T.stats, "scanned", len(T.P.funcs), "table", len(T.P.table))
+
+
+# ------------------------------------------------------------------------------------------- driver
+def compile_terms(outdir, timeout=300):
+    """coqc Terms.v; returns (ok, log, verdicts {id: (bal, exs)}, closed_count, seconds, cmdline)"""
+    import subprocess, re, time
+    effdir = os.path.join(os.path.dirname(os.path.dirname(os.path.abspath(__file__))), "coq_effects")
+    cmd = ["timeout", str(timeout), "coqc", "-Q", effdir, "EFF", "Terms.v"]
+    t0 = time.time()
+    p = subprocess.run(cmd, cwd=outdir, capture_output=True, text=True)
+    secs = time.time() - t0
+    out = p.stdout + p.stderr
+    with open(os.path.join(outdir, "Terms.log"), "w") as f:
+        f.write(out)
+    verd = {}
+    m = re.search(r"V\s*=\s*\[(.*?)\]\s*:\s*list", out, re.S)
+    if m:
+        for a, b, c in re.findall(r"\((\d+),\s*\((true|false),\s*(true|false)\)\)", m.group(1)):
+            verd[int(a)] = (b == "true", c == "true")
+    closed = out.count("Closed under the global context")
+    return p.returncode == 0, out, verd, closed, secs, " ".join(cmd)
+
+
+def run_static(outdir="/verif/build/effects", repo=None):
+    sys.setrecursionlimit(100000)
+    T = translate(repo)
+    info = emit(T, outdir)
+    ok, log, verd, closed, secs, cmdline = compile_terms(outdir)
+    res = {}
+    for e in T.order:
+        res[e.key] = verd.get(e.id)
+    return {"T": T, "ok": ok, "log": log, "verdicts": res, "closed": closed, "secs": secs, "cmd": cmdline, "info": info}
+
+
+if __name__ == "__main__" and len(sys.argv) > 2 and sys.argv[2] == "check":
+    r = run_static(sys.argv[1])
+    bad = [(k, v) for k, v in r["verdicts"].items() if v != (True, True)]
+    print("coq ok", r["ok"], "secs %.1f" % r["secs"], "entries", len(r["verdicts"]), "not neutral", len(bad))
+    for k, v in bad:
+        e = r["T"].entries[k]
+        print("  %-6s %s %s" % ("".join("BE"[i] if not v[i] else "-" for i in range(2)) if v else "??", k, sorted(e.flags)))
